@@ -2,7 +2,7 @@
    derivatives of the real function the program computes.  Route: the Dual2Vec evaluation on the hessian seeds agrees part by part with the HyperDual
    evaluation on the seeds (x_k, delta_ki, delta_kj, 0) (C04: agreeR_Dual2Vec_HyperDual i j), whose eps1eps2 part is the mixed second derivative along
    the two-parameter family x + (s - x_i) e_i + (t - x_j) e_j (C03: mixed_second_order).  i = j gives the pure second derivative. *)
-From ND Require Import Tactics C02_proofs C01_towers C01_faa C07_proofs C09_proofs Prog Agree C04_inst C04_proofs C04_nested C03_proofs C03_second C03_third C03_mixed C04_real
+From ND Require Import Tactics C02_proofs C01_towers C01_faa C07_proofs C09_proofs Prog Agree C04_inst C04_proofs C04_nested C03_proofs C03_second C03_third C03_mixed C03_mixed3 C04_real
   Drivers C05_proofs C05_programs.
 Local Open Scope R_scope.
 
@@ -222,4 +222,22 @@ Proof.
     cbn [map] in P1, P2, P12. unfold f_ij in P1, P2, P12. cbn [Nat.eqb] in P1, P2, P12.
     rewrite Q1 in P1. rewrite Q2 in P2. rewrite Q12 in P12.
     split; [rewrite EGx, <- P1; exact D1|]. exists ft. split; [exact L|]. split; [rewrite EGy, <- P2; exact E2|]. rewrite EH, <- P12. exact D12.
+Qed.
+
+(* ---- third_partial_derivative on a program of three variables: the eight parts, eps1eps2eps3 = d/dx d/dy d/dz ---- *)
+Theorem third_partial_derivative_of_program p x y z : okR (x :: y :: z :: nil) p ->
+  let f := fun s t u => eval (T:=R) (s :: t :: u :: nil) p in
+  exists fx fy fz fxy fxz fyz fxyz (vt : R -> R) (g3 : R -> R -> R) (gt : R -> R),
+    third_partial_derivative (fun a b c => eval (a :: b :: c :: nil) p) x y z = (f x y z :: fx :: fy :: fz :: fxy :: fxz :: fyz :: fxyz :: nil) /\
+    is_derive (fun s => f s y z) x fx /\ locally x (fun s => is_derive (fun t => f s t z) y (vt s)) /\ fy = vt x /\ is_derive vt x fxy /\
+    locally x (fun s => locally y (fun t => is_derive (f s t) z (g3 s t))) /\ fz = g3 x y /\
+    locally x (fun s => is_derive (g3 s) y (gt s)) /\ is_derive (fun s => g3 s y) x fxz /\ fyz = gt x /\ is_derive gt x fxyz.
+Proof.
+  intros Hok f.
+  set (h := eval (mkHyperHyperDual x 1 0 0 0 0 0 0 :: mkHyperHyperDual y 0 1 0 0 0 0 0 :: mkHyperHyperDual z 0 0 1 0 0 0 0 :: nil) p).
+  destruct (repT_parts x y z f h (third_partial_program p x y z Hok)) as [A [[vt [Lv [D1 [E2 D12]]]] [g3 [Lg [E3 [gt [Lgt [D13 [E23 D123]]]]]]]]].
+  exists (HyperHyperDual_f_eps1 h), (HyperHyperDual_f_eps2 h), (HyperHyperDual_f_eps3 h), (HyperHyperDual_f_eps1eps2 h), (HyperHyperDual_f_eps1eps3 h),
+    (HyperHyperDual_f_eps2eps3 h), (HyperHyperDual_f_eps1eps2eps3 h), vt, g3, gt.
+  split; [|repeat (split; [assumption|]); assumption].
+  match goal with |- _ = ?rhs => change (hhd_out h = rhs) end. unfold hhd_out. rewrite A. reflexivity.
 Qed.
